@@ -264,12 +264,12 @@ def first_diff(a, b):
 
 class Processes(Unit):
     name = "hashseed-process-clock"
-    rule = ("every pipeline item (recompile x lazy, TTX import, TTX dump, feaLib compile of the corpus .fea files, subset x 4 option sets, every pair of characters of the fonts with AAT / colour / MATH tables with and without .notdef, generated multi-script feature files with aalt, a COLR v0+v1 font, instancer x 3 limit kinds, varLib.build of corpus + generated designspaces, merge, TTC save, WOFF/WOFF2 save; ~700 items) executed in separate processes under "
+    rule = ("every pipeline item (recompile x lazy, TTX import, TTX dump, feaLib compile of the corpus .fea files, subset x 4 option sets, every pair of characters of the fonts with AAT / colour / MATH tables with and without .notdef, generated multi-script feature files with aalt, a COLR v0+v1 font, generated AAT morx ligature subtables with several equally long action lists, instancer x 3 limit kinds, varLib.build of corpus + generated designspaces, merge, TTC save, WOFF/WOFF2 save; ~700 items) executed in separate processes under "
             "PYTHONHASHSEED in {0,1,2,3} (thorough: 0..11), plus seed 0 with the wall clock shifted by +1e6 s with SOURCE_DATE_EPOCH pinned, SOURCE_DATE_EPOCH unset with recalcTimestamp=False at clock offsets 0 and +1e6 s, and SOURCE_DATE_EPOCH=0 at clock offsets 0 and +1e6 s: the sha256 of every output must be identical across all runs; "
             "distinct = pipeline items whose output is not an exception")
     in_parent = True
     chunk = 1
-    required_witnesses = ("subset items", "instance items", "varlib-build items", "fea items", "merge items", "subset-pair items", "SOURCE_DATE_EPOCH=0 runs")
+    required_witnesses = ("subset items", "instance items", "varlib-build items", "fea items", "merge items", "subset-pair items", "aat items", "SOURCE_DATE_EPOCH=0 runs")
 
     def cases(self, tier, seed):
         yield ["all"]
@@ -351,5 +351,92 @@ class Processes(Unit):
         self._nseeds = 4 if tier == "quick" else 12
 
 
+class CollectionHistories(Unit):
+    name = "ttc-save-histories"
+    rule = ("a TTCollection of 3 generated TrueType fonts (two different, one repeated) with every pattern of the members' recalcTimestamp flags (2^3) x lazy in {None, True}: ALL histories of length <= 2 over "
+            "{collection.save(shareTables=True), collection.save(shareTables=False), member[i].save for i in 0..2}, then a final collection.save in both sharing modes; oracle: after every operation each member's "
+            "recalcTimestamp flag is what it was, and the final bytes equal those of a fresh collection with the same flags saved once (a second save yields identical bytes; later operations behave as if the "
+            "earlier saves had not happened); each member read back from the collection has the head.modified its flag demands (pinned epoch / original); distinct = each (flags, lazy, history)")
+    chunk = 1
+    required_witnesses = ("mixed flags", "unflagged member before a flagged one", "history of two saves", "member saved on its own")
+
+    def cases(self, tier, seed):
+        for flags in itertools.product((False, True), repeat=3):
+            for lazy in (None, True):
+                yield [list(flags), lazy]
+
+    def setup(self, tier, seed):
+        from oracles import tinyfont
+
+        a = tinyfont.build_bytes({"kind": "ttf", "shapes": "mixed", "glyphs": ["a", "b", "c"], "fea": "feature liga { sub a b by c; } liga;"})
+        b = tinyfont.build_bytes({"kind": "ttf", "shapes": "mixed", "glyphs": ["x", "y", "c"], "coef": 3, "fea": "feature kern { pos x y -20; } kern;"})
+        # distinct, old 'modified' stamps so that a restamp is visible
+        datas = []
+        for i, d in enumerate((a, b, a)):
+            f = TTFont(io.BytesIO(d), recalcTimestamp=False)
+            f["head"].modified = 3000000000 + 1000 * i
+            buf = io.BytesIO()
+            f.save(buf)
+            datas.append(buf.getvalue())
+        self._datas = datas
+
+    def _fresh(self, flags, lazy):
+        from fontTools.ttLib import TTCollection
+
+        c = TTCollection()
+        c.fonts = [TTFont(io.BytesIO(d), recalcTimestamp=fl, lazy=lazy) for d, fl in zip(self._datas, flags)]
+        return c
+
+    OPS = ("C1", "C0", "M0", "M1", "M2")
+
+    @staticmethod
+    def _apply(c, op):
+        buf = io.BytesIO()
+        if op[0] == "C":
+            c.save(buf, shareTables=op == "C1")
+        else:
+            c.fonts[int(op[1])].save(buf)
+        return buf.getvalue()
+
+    def check(self, case, rec):
+        from fontTools.ttLib import TTCollection
+        from fontTools.misc.timeTools import timestampNow
+
+        flags, lazy = case
+        if len(set(flags)) > 1:
+            rec.witness("mixed flags")
+        if any(not flags[i] and flags[j] for i in range(3) for j in range(i + 1, 3)):
+            rec.witness("unflagged member before a flagged one")
+        ref = {op: self._apply(self._fresh(flags, lazy), op) for op in ("C1", "C0")}
+        now = timestampNow()
+        for op, data in ref.items():
+            back = TTCollection(io.BytesIO(data))
+            for i, f in enumerate(back.fonts):
+                want = now if flags[i] else 3000000000 + 1000 * i
+                if f["head"].modified != want:
+                    rec.violation("ttc:modified-stamp", "flags %s: member %d saved with head.modified %d, expected %d" % (flags, i, f["head"].modified, want), case=case)
+        hists = [()] + [(a,) for a in self.OPS] + [(a, b) for a in self.OPS for b in self.OPS]
+        for h in hists:
+            for last in ("C1", "C0"):
+                rec.evals()
+                rec.nontrivial(key=[flags, lazy, h, last])
+                c = self._fresh(flags, lazy)
+                for k, op in enumerate(h):
+                    self._apply(c, op)
+                    rec.transition()
+                    now_flags = [bool(f.recalcTimestamp) for f in c.fonts]
+                    if now_flags != list(flags):
+                        rec.violation("ttc:flags-changed", "flags %s lazy=%s: after %s the members' recalcTimestamp flags are %s" % (flags, lazy, list(h[:k + 1]), now_flags), case=case)
+                if len(h) == 2:
+                    rec.witness("history of two saves")
+                if any(op[0] == "M" for op in h):
+                    rec.witness("member saved on its own")
+                out = self._apply(c, last)
+                rec.state([flags, lazy, sorted(set(h)), last])
+                if out != ref[last]:
+                    rec.violation("ttc:second-save-differs", "flags %s lazy=%s: collection.save(shareTables=%s) after history %s differs from the same save on a fresh collection (%d vs %d bytes)"
+                                  % (flags, lazy, last == "C1", list(h), len(out), len(ref[last])), case=case)
+
+
 def units():
-    return [Histories(), Processes()]
+    return [Histories(), Processes(), CollectionHistories()]
